@@ -22,6 +22,8 @@ type seed struct {
 }
 
 var seeds = []seed{
+	{"PreviousValue steps its chunk index in the for clause and in the body", "LP1", "roaring.go", "\tfor containerIndex != -1 && prevValue == -1 {\n", "\tfor ; containerIndex >= 0 && prevValue == -1; containerIndex-- {\n", "PreviousValue|for containerIndex"},
+	{"AndAny continues to the next key before emptying its filter list", "LP2", "fastaggregation.go", "\t\tif !result.isEmpty() {\n\t\t\tx1.highlowcontainer.replaceKeyAndContainerAtIndex(intersections, baseKey, result, false)\n\t\t\tintersections++\n\t\t}\n", "\t\tif result.isEmpty() {\n\t\t\tbasePos = x1.highlowcontainer.advanceUntil(minNextKey, basePos)\n\t\t\tcontinue\n\t\t}\n\t\tx1.highlowcontainer.replaceKeyAndContainerAtIndex(intersections, baseKey, result, false)\n\t\tintersections++\n", "AndAny|scratch list"},
 	{"WriteDenseTo converts the chunk base to int before shifting", "U8", "roaring.go", "\t\t\tcopy(bitmap[int(hb>>log2WordSize):], c.bitmap)\n", "\t\t\tcopy(bitmap[int(hb)>>log2WordSize:], c.bitmap)\n", "WriteDenseTo|chunk base converted to int"},
 	{"roaringArray64.equals compares the receiver's keys with themselves", "EQ1", "roaring64/roaringarray64.go", "\t\tfor i, k := range ra.keys {\n\t\t\tif k != srb.keys[i] {", "\t\tkeys := ra.keys\n\t\tfor i, k := range ra.keys {\n\t\t\tif k != keys[i] {", "roaringArray64).equals"},
 	{"TransposeWithCounts hands found-set and filter-set over crossed", "SW1", "roaring64/bsi64.go", "parallelExecutorBSIResults(parallelism, b, transposeWithCounts, foundSet, filterSet, true)", "parallelExecutorBSIResults(parallelism, b, transposeWithCounts, filterSet, foundSet, true)", "TransposeWithCounts|call of parallelExecutorBSIResults"},
